@@ -25,6 +25,7 @@ package hackpadfs
 //@   deterministic
 //@   pure
 //@   ensures "invalid-stays-invalid" implies(!VP(name), !VP(subPath))
+//@   ensures "nonnil" mountFS != nil
 
 // ---- error translation between namespaces ----
 
@@ -89,3 +90,190 @@ package hackpadfs
 
 //@ func ValidPath(path string) (r bool)
 //@   inline
+
+// ---- helpers with fallbacks (hand-written; the uniform ones are in contracts_helpers_verif.go) ----
+
+//@ spec openF(fs FS, name string) := ret("hackpadfs.(FS).Open", 0, fs, name)
+//@ spec openE(fs FS, name string) := ret("hackpadfs.(FS).Open", 1, fs, name)
+//@ spec openW(fs FS, name string) := worldAfter("hackpadfs.(FS).Open", fs, name)
+
+//@ extern io/fs.ReadDir(fsys FS, name string) (entries []DirEntry, err error)
+//@   deterministic
+
+//@ extern io/fs.ReadFile(fsys FS, name string) (data []byte, err error)
+//@   deterministic
+
+//@ func Stat(fs FS, name string) (info FileInfo, err error)
+//@   requires fs != nil
+//@   props C06 C07 C08 C04 C05
+//@   deterministic
+//@   ensures "native" implies(implements(fs, StatFS), info == old(ret("hackpadfs.(StatFS).Stat", 0, fs, name)) && err == old(ret("hackpadfs.(StatFS).Stat", 1, fs, name)) &&
+//@                      world() == old(worldAfter("hackpadfs.(StatFS).Stat", fs, name)))
+//@   ensures "mount" implies(!implements(fs, StatFS) && implements(fs, MountFS),
+//@                      info == old(ret("hackpadfs.Stat", 0, mountOf(fs, name), subOf(fs, name))) &&
+//@                      translated(err, old(ret("hackpadfs.Stat", 1, mountOf(fs, name), subOf(fs, name))), name, old(subOf(fs, name))) &&
+//@                      world() == old(worldAfter("hackpadfs.Stat", mountOf(fs, name), subOf(fs, name))))
+//@   ensures "fallback-open-error" implies(!implements(fs, StatFS) && !implements(fs, MountFS) && old(openE(fs, name)) != nil,
+//@                      info == nil && err == old(openE(fs, name)) && world() == old(openW(fs, name)))
+//@   ensures "fallback" implies(!implements(fs, StatFS) && !implements(fs, MountFS) && old(openE(fs, name)) == nil,
+//@                      info == old(retW("hackpadfs.(File).Stat", 0, openW(fs, name), openF(fs, name))) &&
+//@                      err == old(retW("hackpadfs.(File).Stat", 1, openW(fs, name), openF(fs, name))) &&
+//@                      world() == old(worldAfterW("hackpadfs.(File).Close", worldAfterW("hackpadfs.(File).Stat", openW(fs, name), openF(fs, name)), openF(fs, name))))
+//@   nopanic
+
+//@ func OpenFile(fs FS, name string, flag int, perm FileMode) (f File, err error)
+//@   requires fs != nil
+//@   props C06 C07 C08 C04 C05
+//@   deterministic
+//@   ensures "result" implies(err == nil, f != nil)
+//@   ensures "read-only" implies(flag == FlagReadOnly, f == old(openF(fs, name)) && err == old(openE(fs, name)) && world() == old(openW(fs, name)))
+//@   ensures "native" implies(flag != FlagReadOnly && implements(fs, OpenFileFS),
+//@                      f == old(ret("hackpadfs.(OpenFileFS).OpenFile", 0, fs, name, flag, perm)) && err == old(ret("hackpadfs.(OpenFileFS).OpenFile", 1, fs, name, flag, perm)) &&
+//@                      world() == old(worldAfter("hackpadfs.(OpenFileFS).OpenFile", fs, name, flag, perm)))
+//@   ensures "mount" implies(flag != FlagReadOnly && !implements(fs, OpenFileFS) && implements(fs, MountFS),
+//@                      f == old(ret("hackpadfs.OpenFile", 0, mountOf(fs, name), subOf(fs, name), flag, perm)) &&
+//@                      translated(err, old(ret("hackpadfs.OpenFile", 1, mountOf(fs, name), subOf(fs, name), flag, perm)), name, old(subOf(fs, name))) &&
+//@                      world() == old(worldAfter("hackpadfs.OpenFile", mountOf(fs, name), subOf(fs, name), flag, perm)))
+//@   ensures "notimpl" implies(flag != FlagReadOnly && !implements(fs, OpenFileFS) && !implements(fs, MountFS),
+//@                      f == nil && isPathError(err) && pathOf(err) == name && errIs(err, ErrNotImplemented) && world() == old(world()))
+//@   nopanic
+
+//@ func Create(fs FS, name string) (f File, err error)
+//@   requires fs != nil
+//@   props C08 C04 C05
+//@   deterministic
+//@   ensures "native" implies(implements(fs, CreateFS), f == old(ret("hackpadfs.(CreateFS).Create", 0, fs, name)) && err == old(ret("hackpadfs.(CreateFS).Create", 1, fs, name)) &&
+//@                      world() == old(worldAfter("hackpadfs.(CreateFS).Create", fs, name)))
+//@   ensures "fallback" implies(!implements(fs, CreateFS),
+//@                      f == old(ret("hackpadfs.OpenFile", 0, fs, name, FlagReadWrite|FlagCreate|FlagTruncate, 0666)) &&
+//@                      err == old(ret("hackpadfs.OpenFile", 1, fs, name, FlagReadWrite|FlagCreate|FlagTruncate, 0666)) &&
+//@                      world() == old(worldAfter("hackpadfs.OpenFile", fs, name, FlagReadWrite|FlagCreate|FlagTruncate, 0666)))
+//@   nopanic
+
+//@ func Sub(fs FS, dir string) (r FS, err error)
+//@   props C07 C06 C08 C04 C05
+//@   deterministic
+//@   ensures "native" implies(implements(fs, SubFS), r == old(ret("hackpadfs.(SubFS).Sub", 0, fs, dir)) && err == old(ret("hackpadfs.(SubFS).Sub", 1, fs, dir)) &&
+//@                      world() == old(worldAfter("hackpadfs.(SubFS).Sub", fs, dir)))
+//@   ensures "mount" implies(!implements(fs, SubFS) && implements(fs, MountFS),
+//@                      r == old(ret("hackpadfs.Sub", 0, mountOf(fs, dir), subOf(fs, dir))) &&
+//@                      translated(err, old(ret("hackpadfs.Sub", 1, mountOf(fs, dir), subOf(fs, dir))), dir, old(subOf(fs, dir))) &&
+//@                      world() == old(worldAfter("hackpadfs.Sub", mountOf(fs, dir), subOf(fs, dir))))
+//@   ensures "fallback" implies(!implements(fs, SubFS) && !implements(fs, MountFS), world() == old(world()) && iff(err == nil, VP(dir)) &&
+//@                      implies(err != nil, r == nil && isPathError(err) && pathOf(err) == dir && errIs(err, ErrInvalid)) &&
+//@                      implies(err == nil, isType(r, *subFS) && r.(*subFS).basePath == dir && r.(*subFS).rootFS == fs))
+//@   nopanic
+
+//@ func ReadDir(fs FS, name string) (entries []DirEntry, err error)
+//@   props C06 C07 C08 C16 C05
+//@   deterministic
+//@   ensures "native" implies(implements(fs, ReadDirFS), entries == old(ret("hackpadfs.(ReadDirFS).ReadDir", 0, fs, name)) && err == old(ret("hackpadfs.(ReadDirFS).ReadDir", 1, fs, name)) &&
+//@                      world() == old(worldAfter("hackpadfs.(ReadDirFS).ReadDir", fs, name)))
+//@   ensures "mount" implies(!implements(fs, ReadDirFS) && implements(fs, MountFS),
+//@                      entries == old(ret("hackpadfs.ReadDir", 0, mountOf(fs, name), subOf(fs, name))) &&
+//@                      translated(err, old(ret("hackpadfs.ReadDir", 1, mountOf(fs, name), subOf(fs, name))), name, old(subOf(fs, name))) &&
+//@                      world() == old(worldAfter("hackpadfs.ReadDir", mountOf(fs, name), subOf(fs, name))))
+//@   ensures "fallback" implies(!implements(fs, ReadDirFS) && !implements(fs, MountFS),
+//@                      entries == old(ret("io/fs.ReadDir", 0, fs, name)) && err == old(ret("io/fs.ReadDir", 1, fs, name)) && world() == old(worldAfter("io/fs.ReadDir", fs, name)))
+//@   nopanic
+
+//@ func ReadFile(fs FS, name string) (data []byte, err error)
+//@   props C06 C07 C08 C05
+//@   deterministic
+//@   ensures "native" implies(implements(fs, ReadFileFS), data == old(ret("hackpadfs.(ReadFileFS).ReadFile", 0, fs, name)) && err == old(ret("hackpadfs.(ReadFileFS).ReadFile", 1, fs, name)) &&
+//@                      world() == old(worldAfter("hackpadfs.(ReadFileFS).ReadFile", fs, name)))
+//@   ensures "mount" implies(!implements(fs, ReadFileFS) && implements(fs, MountFS),
+//@                      data == old(ret("hackpadfs.ReadFile", 0, mountOf(fs, name), subOf(fs, name))) &&
+//@                      translated(err, old(ret("hackpadfs.ReadFile", 1, mountOf(fs, name), subOf(fs, name))), name, old(subOf(fs, name))) &&
+//@                      world() == old(worldAfter("hackpadfs.ReadFile", mountOf(fs, name), subOf(fs, name))))
+//@   ensures "fallback" implies(!implements(fs, ReadFileFS) && !implements(fs, MountFS),
+//@                      data == old(ret("io/fs.ReadFile", 0, fs, name)) && err == old(ret("io/fs.ReadFile", 1, fs, name)) && world() == old(worldAfter("io/fs.ReadFile", fs, name)))
+//@   nopanic
+
+//@ func Chmod(fs FS, name string, mode FileMode) (err error)
+//@   props C06 C07 C08 C04 C05
+//@   deterministic
+//@   requires fs != nil
+//@   ensures "native" implies(implements(fs, ChmodFS), err == old(ret("hackpadfs.(ChmodFS).Chmod", 0, fs, name, mode)) && world() == old(worldAfter("hackpadfs.(ChmodFS).Chmod", fs, name, mode)))
+//@   ensures "mount" implies(!implements(fs, ChmodFS) && implements(fs, MountFS),
+//@                      translated(err, old(ret("hackpadfs.Chmod", 0, mountOf(fs, name), subOf(fs, name), mode)), name, old(subOf(fs, name))) && world() == old(worldAfter("hackpadfs.Chmod", mountOf(fs, name), subOf(fs, name), mode)))
+//@   ensures "fallback-open-error" implies(!implements(fs, ChmodFS) && !implements(fs, MountFS) && old(openE(fs, name)) != nil,
+//@                      isPathError(err) && pathOf(err) == name && innerErr(err) == old(openE(fs, name)) && world() == old(openW(fs, name)))
+//@   ensures "fallback" implies(!implements(fs, ChmodFS) && !implements(fs, MountFS) && old(openE(fs, name)) == nil,
+//@                      err == old(retW("hackpadfs.ChmodFile", 0, openW(fs, name), openF(fs, name), mode)) &&
+//@                      world() == old(worldAfterW("hackpadfs.(File).Close", worldAfterW("hackpadfs.ChmodFile", openW(fs, name), openF(fs, name), mode), openF(fs, name))))
+//@   nopanic
+
+//@ func Chown(fs FS, name string, uid int, gid int) (err error)
+//@   props C06 C07 C08 C04 C05
+//@   deterministic
+//@   requires fs != nil
+//@   ensures "native" implies(implements(fs, ChownFS), err == old(ret("hackpadfs.(ChownFS).Chown", 0, fs, name, uid, gid)) && world() == old(worldAfter("hackpadfs.(ChownFS).Chown", fs, name, uid, gid)))
+//@   ensures "mount" implies(!implements(fs, ChownFS) && implements(fs, MountFS),
+//@                      translated(err, old(ret("hackpadfs.Chown", 0, mountOf(fs, name), subOf(fs, name), uid, gid)), name, old(subOf(fs, name))) && world() == old(worldAfter("hackpadfs.Chown", mountOf(fs, name), subOf(fs, name), uid, gid)))
+//@   ensures "fallback-open-error" implies(!implements(fs, ChownFS) && !implements(fs, MountFS) && old(openE(fs, name)) != nil,
+//@                      isPathError(err) && pathOf(err) == name && innerErr(err) == old(openE(fs, name)) && world() == old(openW(fs, name)))
+//@   ensures "fallback" implies(!implements(fs, ChownFS) && !implements(fs, MountFS) && old(openE(fs, name)) == nil,
+//@                      err == old(retW("hackpadfs.ChownFile", 0, openW(fs, name), openF(fs, name), uid, gid)) &&
+//@                      world() == old(worldAfterW("hackpadfs.(File).Close", worldAfterW("hackpadfs.ChownFile", openW(fs, name), openF(fs, name), uid, gid), openF(fs, name))))
+//@   nopanic
+
+//@ func Chtimes(fs FS, name string, atime time.Time, mtime time.Time) (err error)
+//@   props C06 C07 C08 C04 C05
+//@   deterministic
+//@   requires fs != nil
+//@   ensures "native" implies(implements(fs, ChtimesFS), err == old(ret("hackpadfs.(ChtimesFS).Chtimes", 0, fs, name, atime, mtime)) && world() == old(worldAfter("hackpadfs.(ChtimesFS).Chtimes", fs, name, atime, mtime)))
+//@   ensures "mount" implies(!implements(fs, ChtimesFS) && implements(fs, MountFS),
+//@                      translated(err, old(ret("hackpadfs.Chtimes", 0, mountOf(fs, name), subOf(fs, name), atime, mtime)), name, old(subOf(fs, name))) && world() == old(worldAfter("hackpadfs.Chtimes", mountOf(fs, name), subOf(fs, name), atime, mtime)))
+//@   ensures "fallback-open-error" implies(!implements(fs, ChtimesFS) && !implements(fs, MountFS) && old(openE(fs, name)) != nil,
+//@                      isPathError(err) && pathOf(err) == name && innerErr(err) == old(openE(fs, name)) && world() == old(openW(fs, name)))
+//@   ensures "fallback" implies(!implements(fs, ChtimesFS) && !implements(fs, MountFS) && old(openE(fs, name)) == nil,
+//@                      err == old(retW("hackpadfs.ChtimesFile", 0, openW(fs, name), openF(fs, name), atime, mtime)) &&
+//@                      world() == old(worldAfterW("hackpadfs.(File).Close", worldAfterW("hackpadfs.ChtimesFile", openW(fs, name), openF(fs, name), atime, mtime), openF(fs, name))))
+//@   nopanic
+
+//@ spec wffF(fs FS, name string, perm FileMode) := ret("hackpadfs.OpenFile", 0, fs, name, FlagWriteOnly|FlagCreate|FlagTruncate, perm)
+//@ spec wffE(fs FS, name string, perm FileMode) := ret("hackpadfs.OpenFile", 1, fs, name, FlagWriteOnly|FlagCreate|FlagTruncate, perm)
+//@ spec wffW1(fs FS, name string, perm FileMode) := worldAfter("hackpadfs.OpenFile", fs, name, FlagWriteOnly|FlagCreate|FlagTruncate, perm)
+//@ spec wffW2(fs FS, name string, data []byte, perm FileMode) := worldAfterW("hackpadfs.WriteFile", wffW1(fs, name, perm), wffF(fs, name, perm), data)
+//@ spec wffE2(fs FS, name string, data []byte, perm FileMode) := retW("hackpadfs.WriteFile", 1, wffW1(fs, name, perm), wffF(fs, name, perm), data)
+//@ spec wffE3(fs FS, name string, data []byte, perm FileMode) := retW("hackpadfs.(File).Close", 0, wffW2(fs, name, data, perm), wffF(fs, name, perm))
+
+//@ func WriteFullFile(fs FS, name string, data []byte, perm FileMode) (err error)
+//@   props C06 C07 C08 C04 C05
+//@   deterministic
+//@   requires fs != nil
+//@   ensures "native" implies(implements(fs, WriteFileFS), err == old(ret("hackpadfs.(WriteFileFS).WriteFile", 0, fs, name, data, perm)) &&
+//@                      world() == old(worldAfter("hackpadfs.(WriteFileFS).WriteFile", fs, name, data, perm)))
+//@   ensures "mount" implies(!implements(fs, WriteFileFS) && implements(fs, MountFS),
+//@                      translated(err, old(ret("hackpadfs.WriteFullFile", 0, mountOf(fs, name), subOf(fs, name), data, perm)), name, old(subOf(fs, name))) &&
+//@                      world() == old(worldAfter("hackpadfs.WriteFullFile", mountOf(fs, name), subOf(fs, name), data, perm)))
+//@   ensures "fallback-open-error" implies(!implements(fs, WriteFileFS) && !implements(fs, MountFS) && old(wffE(fs, name, perm)) != nil,
+//@                      err == old(wffE(fs, name, perm)) && world() == old(wffW1(fs, name, perm)))
+//@   ensures "fallback-write-error" implies(!implements(fs, WriteFileFS) && !implements(fs, MountFS) && old(wffE(fs, name, perm)) == nil && old(wffE2(fs, name, data, perm)) != nil,
+//@                      err == old(wffE2(fs, name, data, perm)))
+//@   ensures "fallback-close-error" implies(!implements(fs, WriteFileFS) && !implements(fs, MountFS) && old(wffE(fs, name, perm)) == nil && old(wffE2(fs, name, data, perm)) == nil,
+//@                      err == old(wffE3(fs, name, data, perm)))
+//@   ensures "fallback-world" implies(!implements(fs, WriteFileFS) && !implements(fs, MountFS) && old(wffE(fs, name, perm)) == nil,
+//@                      world() == old(worldAfterW("hackpadfs.(File).Close", wffW2(fs, name, data, perm), wffF(fs, name, perm))))
+//@   nopanic
+
+//@ spec losI(fs FS, name string) := ret("hackpadfs.Lstat", 0, fs, name)
+//@ spec losE(fs FS, name string) := ret("hackpadfs.Lstat", 1, fs, name)
+//@ spec losW(fs FS, name string) := worldAfter("hackpadfs.Lstat", fs, name)
+
+//@ func LstatOrStat(fs FS, name string) (info FileInfo, err error)
+//@   props C06 C07 C08 C04 C05
+//@   deterministic
+//@   requires fs != nil
+//@   ensures "mount" implies(implements(fs, MountFS),
+//@                      info == old(ret("hackpadfs.LstatOrStat", 0, mountOf(fs, name), subOf(fs, name))) &&
+//@                      translated(err, old(ret("hackpadfs.LstatOrStat", 1, mountOf(fs, name), subOf(fs, name))), name, old(subOf(fs, name))) &&
+//@                      world() == old(worldAfter("hackpadfs.LstatOrStat", mountOf(fs, name), subOf(fs, name))))
+//@   ensures "lstat" implies(!implements(fs, MountFS) && !errIs(old(losE(fs, name)), ErrNotImplemented),
+//@                      info == old(losI(fs, name)) && err == old(losE(fs, name)) && world() == old(losW(fs, name)))
+//@   ensures "stat" implies(!implements(fs, MountFS) && errIs(old(losE(fs, name)), ErrNotImplemented),
+//@                      info == old(retW("hackpadfs.Stat", 0, losW(fs, name), fs, name)) && err == old(retW("hackpadfs.Stat", 1, losW(fs, name), fs, name)) &&
+//@                      world() == old(worldAfterW("hackpadfs.Stat", losW(fs, name), fs, name)))
+//@   nopanic
+
